@@ -39,6 +39,7 @@ type RulesSpec struct {
 	BaseCompute                                   uint64
 	KeyRead, ValRead, KeyAlloc, ValAlloc          uint64
 	KeyWrite, ValWrite                            uint64
+	WindowTarget                                  *[5]uint64 `json:",omitempty"`
 }
 
 func (s RulesSpec) Rules() *genesis.Rules {
@@ -52,6 +53,9 @@ func (s RulesSpec) Rules() *genesis.Rules {
 	r.StorageKeyReadUnits, r.StorageValueReadUnits = s.KeyRead, s.ValRead
 	r.StorageKeyAllocateUnits, r.StorageValueAllocateUnits = s.KeyAlloc, s.ValAlloc
 	r.StorageKeyWriteUnits, r.StorageValueWriteUnits = s.KeyWrite, s.ValWrite
+	if s.WindowTarget != nil {
+		r.WindowTargetUnits = fees.Dimensions(*s.WindowTarget)
+	}
 	return r
 }
 
